@@ -185,6 +185,9 @@ func judge(f failer, c editCase, class string, s *sess, ia, ib *keys.Identity, t
 	checkNoGarbage(f, ctx, s.b, s.ob)
 	switch class {
 	case "baseline":
+		if noConverse {
+			break
+		}
 		if !s.oa.hsOK || !s.ob.hsOK || !s.oa.echoOK || !s.ob.echoOK {
 			f.Fatalf("%s: nothing was edited but the session did not complete: initiator: %s; responder: %s", ctx, s.oa, s.ob)
 		}
@@ -257,10 +260,10 @@ func runEdit(t *testing.T, rt *rapid.T, c editCase) (nontrivial bool, labels []s
 			a, b := c.sides(ia, ib)
 			rec := runThrough(c.proto, a, b, nil, nonce)
 			if !rec.oa.echoOK || !rec.ob.echoOK {
-				f.Fatalf("%s: recording session failed: %s / %s", c.key(), rec.oa, rec.ob)
+				bail("%s: recording session failed: %s / %s", c.key(), rec.oa, rec.ob)
 			}
 			if c.idx >= len(rec.frames[c.dir]) {
-				f.Fatalf("%s: recording has only %d frames in that direction", c.key(), len(rec.frames[c.dir]))
+				bail("%s: recording has only %d frames in that direction", c.key(), len(rec.frames[c.dir]))
 			}
 			ed, ap := wire.Single(framing(c.proto), c.edit(rec.frames[c.dir][c.idx]))
 			s := runThrough(c.proto, a, b, ed, complement(nonce))
@@ -270,7 +273,7 @@ func runEdit(t *testing.T, rt *rapid.T, c editCase) (nontrivial bool, labels []s
 			a, b := c.sides(ia, ib)
 			rec := runThrough(c.proto, a, b, nil, nonce)
 			if !rec.oa.echoOK || !rec.ob.echoOK {
-				f.Fatalf("%s: recording session failed: %s / %s", c.key(), rec.oa, rec.ob)
+				bail("%s: recording session failed: %s / %s", c.key(), rec.oa, rec.ob)
 			}
 			// the whole recorded flight of one party is played against the other, honest party
 			targetSide = b
@@ -379,7 +382,7 @@ func drawEdit(rt *rapid.T, proto string) editCase {
 func TestNoiseWireEdits(t *testing.T) {
 	warm()
 	name := t.Name()
-	hx.Check(t, 1200, 60000, 0, func(rt *rapid.T) {
+	hx.Check(t, 3000, 60000, 0, func(rt *rapid.T) {
 		c := drawEdit(rt, pNoise)
 		nt, labels := runEdit(t, rt, c)
 		stats.Case(name, c.key(), nt, labels...)
@@ -393,7 +396,7 @@ func TestNoiseWireEdits(t *testing.T) {
 func TestTLSWireEdits(t *testing.T) {
 	warm()
 	name := t.Name()
-	hx.Check(t, 1200, 60000, 0, func(rt *rapid.T) {
+	hx.Check(t, 3000, 60000, 0, func(rt *rapid.T) {
 		c := drawEdit(rt, pTLS)
 		nt, labels := runEdit(t, rt, c)
 		stats.Case(name, c.key(), nt, labels...)
@@ -414,7 +417,7 @@ func dryRun(t *testing.T, proto, ti, tr string) (frames [2][][]byte) {
 		oa, ob := runPair(proto, a, b, ca, cb, nil)
 		synctest.Wait()
 		if !oa.hsOK || !ob.hsOK {
-			t.Fatalf("dry run %s %s>%s failed: %s / %s", proto, ti, tr, oa, ob)
+			bail("dry run %s %s>%s failed: %s / %s", proto, ti, tr, oa, ob)
 		}
 		frames = [2][][]byte{m.Frames(wire.AtoB), m.Frames(wire.BtoA)}
 		ca.Close()
@@ -499,18 +502,16 @@ func allPairs() (out [][2]string) {
 // TestNoiseFlipExhaustive: every byte position of all three Noise handshake messages
 // (length prefix included). quick: Ed25519/Ed25519; thorough: all 16 key-type pairs.
 func TestNoiseFlipExhaustive(t *testing.T) {
-	pairs := hx.Pick([][2]string{{"ed25519", "ed25519"}}, allPairs())
+	pairs := hx.Pick([][2]string{{"ed25519", "ed25519"}, {"secp256k1", "ecdsa"}, {"ecdsa", "rsa"}}, allPairs())
 	masks := hx.Pick([]byte{0x01}, []byte{0x01, 0x80})
 	flipExhaustive(t, pNoise, pairs, masks)
 }
 
-// TestTLSFlipExhaustive: every byte position of every TLS handshake record (thorough
-// tier only: four key-type pairs covering all four types on both sides).
+// TestTLSFlipExhaustive: every byte position of every TLS handshake record. quick:
+// Ed25519/Ed25519; thorough: four key-type pairs covering all four types on both sides.
 func TestTLSFlipExhaustive(t *testing.T) {
-	if !hx.Thorough() {
-		t.Skip("thorough tier only")
-	}
-	flipExhaustive(t, pTLS, [][2]string{{"ed25519", "ed25519"}, {"rsa", "ecdsa"}, {"secp256k1", "rsa"}, {"ecdsa", "secp256k1"}}, []byte{0x01})
+	pairs := hx.Pick([][2]string{{"ed25519", "ed25519"}}, [][2]string{{"ed25519", "ed25519"}, {"rsa", "ecdsa"}, {"secp256k1", "rsa"}, {"ecdsa", "secp256k1"}})
+	flipExhaustive(t, pTLS, pairs, []byte{0x01})
 }
 
 var _ net.Conn = (*memnet.Conn)(nil)
